@@ -431,7 +431,14 @@ def _session(prop, rng, n_req):
     for f in fs:
         # --- a clock event before (most) requests
         r = rng.random()
-        if prop == "C06":
+        if prop == "C04" and f["c"] == "pod" and r < 0.5:
+            # place the clock around the start hour of the part of day (the library's own
+            # table is the specification of "a part of day the library itself knows")
+            h0 = core.use_repo()["types"].pod_hours[f["p"][0]][0] % 24
+            nt = _clock_instant(rng, h0, 0, lo, hi)
+            evs.append({"ev": "set", "to": fmt_ts(nt), "boundary": True})
+            t = nt
+        elif prop == "C06":
             nt = _clock_instant(rng, f["p"][0], f["p"][1], lo, hi)
             if f["t"] in ("clock:{hh}{mm} uhr", "clock:{hh}{mm}h") and f["p"][0] == 20 \
                     and rng.random() < 0.6:
